@@ -77,20 +77,28 @@ IdxOfCanon(c, p) == IF \E i \in 1..Len(c.recs) : c.recs[i].p = p
                     THEN CHOOSE i \in 1..Len(c.recs) : c.recs[i].p = p ELSE 0
 \* `old` will be handed to another record: some applicable pair maps onto it
 Taken(c, m, old) == \E i \in 1..Len(m) : m[i][2] = old /\ Has(c.s2p, m[i][1])
-RECURSIVE RemapLoop(_, _, _, _)
-RemapLoop(c, m, live, seq) ==
-  IF seq = <<>> THEN live
+\* returns [live, br]: the rewritten records and the branch taken for every ordered pair
+\* (the branch names are the coverage signature used to select behaviours for replay)
+RECURSIVE RemapLoop2(_, _, _, _, _)
+RemapLoop2(c, m, live, seq, br) ==
+  IF seq = <<>> THEN [live |-> live, br |-> br]
   ELSE LET old == seq[1][1]  new == seq[1][2] IN
-       IF ~Has(c.s2p, old) THEN RemapLoop(c, m, live, Tail(seq))                    \* unknown: skip
-       ELSE IF IdxOfCanon(c, Get(c.s2p, old)) = 0 THEN RemapLoop(c, m, live, Tail(seq))
+       IF ~Has(c.s2p, old) THEN RemapLoop2(c, m, live, Tail(seq), Append(br, "unknown"))            \* unknown: skip
+       ELSE IF IdxOfCanon(c, Get(c.s2p, old)) = 0 THEN RemapLoop2(c, m, live, Tail(seq), Append(br, "stale"))
        ELSE LET i   == IdxOfCanon(c, Get(c.s2p, old))
                 rec == live[i]
                 own == FirstOwner(live, new)
-            IN IF own # 0 /\ own # i THEN RemapLoop(c, m, live, Tail(seq))          \* clash: skip
-               ELSE LET upd == IF old \in (MKeys(m) \cap MVals(m)) /\ Taken(c, m, old)
-                               THEN [rec EXCEPT !.ps = (@ \cup {rec.p}) \ {old, new}, !.p = new]
-                               ELSE [rec EXCEPT !.ps = (@ \cup {rec.p}) \ {new}, !.p = new]
-                    IN RemapLoop(c, m, [live EXCEPT ![i] = upd], Tail(seq))
+                how == IF old = c.recs[i].p THEN "canon" ELSE "syn"
+            IN IF own # 0 /\ own # i THEN RemapLoop2(c, m, live, Tail(seq), Append(br, "clash-" \o how))  \* clash: skip
+               ELSE IF old \in (MKeys(m) \cap MVals(m)) /\ Taken(c, m, old)
+                    THEN RemapLoop2(c, m, [live EXCEPT ![i] = [rec EXCEPT !.ps = (@ \cup {rec.p}) \ {old, new}, !.p = new]],
+                                    Tail(seq), Append(br, "handover-" \o how))
+                    ELSE RemapLoop2(c, m, [live EXCEPT ![i] = [rec EXCEPT !.ps = (@ \cup {rec.p}) \ {new}, !.p = new]],
+                                    Tail(seq), Append(br, (IF own = i THEN "own-" ELSE "plain-") \o how))
+RemapLoop(c, m, live, seq) == RemapLoop2(c, m, live, seq, <<>>).live
+RemapBranches(c, m) ==
+  LET o == OrderRemapping(c, m) IN
+  IF o.err # "" THEN <<o.err>> ELSE RemapLoop2(c, m, c.recs, o.seq, <<>>).br
 RemapCurie(c, m) ==
   LET o == OrderRemapping(c, m) IN
   IF o.err # "" THEN [out |-> Raise(o.err), conv |-> c]
@@ -125,6 +133,16 @@ RemapURI(c, m) ==
 Rewire(c, m) ==
   LET r == Construct(MapSeq(c.recs, LAMBDA x : RewireRec(c, x, m)), DefaultDelim, TRUE) IN
   [out |-> (IF r.out = Ok THEN Ok ELSE Raise(r.out[2])), conv |-> r.conv]
+\* coverage signature of remap_uri_prefixes / rewire: the branch each record takes
+RepointBranch(c, r, m, uri) ==
+  LET cand == IF uri THEN CandNewU(r, m) ELSE CandNewP(r, m)
+      via == IF (IF uri THEN r.u \in MKeys(m) ELSE r.p \in MKeys(m)) THEN "canonkey" ELSE "synkey" IN
+  IF cand = {} THEN "none"
+  ELSE LET new == LexMin(cand) IN
+       IF new = r.u THEN "same-" \o via
+       ELSE IF Has(c.rpm, new) /\ new \notin r.us THEN "clash-" \o via
+       ELSE IF new \in r.us THEN "promote-" \o via ELSE "fresh-" \o via
+RepointBranches(c, m, uri) == {RepointBranch(c, r, m, uri) : r \in RecSet(c)}
 Ambiguous(c, m, uri) == \E r \in RecSet(c) :
   Cardinality(IF uri THEN CandNewU(r, m) ELSE CandNewP(r, m)) > 1
 ===========================================================================
